@@ -285,7 +285,23 @@ def op_programs():
     def fine_const_graph_hvp(me, x, v):
         return grad(lambda y: np.sum(grad(CG)(y) * v))(x)
 
-    progs = {"fine_const_graph": fine_const_graph, "fine_const_graph_hvp": fine_const_graph_hvp, "fine_shared_vjp": fine_shared_vjp, "fine_shared_unflatten": fine_shared_unflatten, "fine_holo": fine_holo, "fine_cwarn": fine_cwarn, "fine_jvp_own": fine_jvp_own, "fine_jvp_sharedfn": fine_jvp_sharedfn, "fine_fwd_over_rev": fine_fwd_over_rev, "fine_einsum_a": fine_einsum_a, "fine_einsum_b": fine_einsum_b, "fine_fft": fine_fft, "hvp_sort": hvp_sort, "grad_sort": grad_sort, "hvp_index": hvp_index, "nested_mixed": nested_mixed, "vjp_reuse": vjp_reuse,
+    # each thread flattens ITS OWN parameter container and differentiates through its own unflatten (what the optimizers in
+    # autograd.misc do on every step); scheduling points at every call / return inside autograd/misc, i.e. between the leaf
+    # visits of one flatten traversal
+    def fine_flatten_own(me, x, v):
+        params = {"w": x[:2] * 1.0, "b": (x[2:] * 1.0, [v[:1] * 1.0, float(me) + 0.5])}
+        flat, unfl = _flatten(params)
+        g = grad(lambda fl: np.sum(unfl(fl)["w"] ** 2) * unfl(fl)["b"][1][1] + np.sum(unfl(fl)["b"][0] * fl[:2]) + np.sum(unfl(fl)["b"][1][0]))(flat)
+        return onp.concatenate([onp.asarray(flat, dtype=float), onp.asarray(g, dtype=float)])
+
+    def fine_optimizer_step(me, x, v):
+        from autograd.misc.optimizers import sgd
+
+        params = {"w": x[:2] * 1.0, "b": (x[2:] * 1.0,)}
+        out_ = sgd(lambda p, i: grad(lambda q: np.sum(q["w"] ** 2) + np.sum(q["b"][0] * v[:2]))(p), params, num_iters=2, step_size=0.1)
+        return onp.concatenate([onp.asarray(out_["w"], dtype=float), onp.asarray(out_["b"][0], dtype=float)])
+
+    progs = {"fine_flatten_own": fine_flatten_own, "fine_optimizer_step": fine_optimizer_step, "fine_const_graph": fine_const_graph, "fine_const_graph_hvp": fine_const_graph_hvp, "fine_shared_vjp": fine_shared_vjp, "fine_shared_unflatten": fine_shared_unflatten, "fine_holo": fine_holo, "fine_cwarn": fine_cwarn, "fine_jvp_own": fine_jvp_own, "fine_jvp_sharedfn": fine_jvp_sharedfn, "fine_fwd_over_rev": fine_fwd_over_rev, "fine_einsum_a": fine_einsum_a, "fine_einsum_b": fine_einsum_b, "fine_fft": fine_fft, "hvp_sort": hvp_sort, "grad_sort": grad_sort, "hvp_index": hvp_index, "nested_mixed": nested_mixed, "vjp_reuse": vjp_reuse,
              "shared_grad": shared_grad, "shared_hvp": shared_hvp, "shared_jvp": shared_jvp, "shared_grad_argnum": shared_grad_argnum}
     return box, progs
 
@@ -429,7 +445,7 @@ def op_level_probe(seed=0, max_schedules=1500):
                 th.join(30)
             nrun += 1
             box[0] = None
-            ok = not errs and all(t in res and onp.allclose(res[t], solo[t], rtol=1e-12, atol=1e-12) for t in (0, 1))
+            ok = not errs and all(t in res and onp.shape(res[t]) == onp.shape(solo[t]) and onp.allclose(res[t], solo[t], rtol=1e-12, atol=1e-12) for t in (0, 1))
             if not ok:
                 bad = {"schedule": order, "errors": errs, "scheduled": {t: (res[t].tolist() if t in res else None) for t in (0, 1)}, "solo": [s_.tolist() for s_ in solo]}
                 break
